@@ -60,3 +60,14 @@ Lemma literal_eq_witness :
   is_ok (via_argv C (TLit [LInt 1; LInt 2]) [116;114;117;101]%N) = false /\
   guard (chk_lit as_is model_yload) (TLit [LInt 1; LInt 2]) [116;114;117;101]%N (VBool true) = true.
 Proof. vm_compute. auto. Qed.
+
+(* a Dict[str, str] entry whose text reads as null: the whole-value text is accepted, the entry-by-entry command line
+   is rejected (no retry with the entry's raw text), and is accepted once the retry is there *)
+Lemma nested_item_witness :
+  let t := TDict false TStr in
+  let whole := [123;34;107;34;58;32;34;110;117;108;108;34;125]%N in       (* {"k": "null"} *)
+  let yl := case_yload [(whole, LVal (VDict [(VStr [107]%N, VStr [110;117;108;108]%N)]))] in
+  via_argv (chk as_is yl) t whole = AOk (VDict [(VStr [107]%N, VStr [110;117;108;108]%N)]) /\
+  is_ok (via_argv_nested as_is yl false t [([107]%N, [110;117;108;108]%N)]) = false /\
+  via_argv_nested as_is yl true t [([107]%N, [110;117;108;108]%N)] = AOk (VDict [(VStr [107]%N, VStr [110;117;108;108]%N)]).
+Proof. vm_compute. auto. Qed.
